@@ -127,8 +127,25 @@ class Abs(Evaluator):
                     vals.append(bool(self.ev(e.args[0].elt)))
             self.env = saved
             return all(vals) if name == 'all' else any(vals)
+        if name == 'sorted' and len(e.args) == 1 and not e.keywords:
+            v = list(self.ev(e.args[0]))
+            return sorted(v) if all(isinstance(x, str) for x in v) or all(isinstance(x, int) for x in v) else v
         if name in ('list', 'set', 'tuple', 'sorted') and len(e.args) == 1:
             return list(self.ev(e.args[0]))
+        if name == 'range' and 1 <= len(e.args) <= 3:
+            return list(range(*[self.ev(a) for a in e.args]))
+        if name in ('hasattr', 'getattr') and len(e.args) == 2:
+            o, a = self.ev(e.args[0]), self.ev(e.args[1])
+            if not isinstance(o, Obj) or not isinstance(a, str):
+                raise AnalysisError(f"{name} outside the abstract domain: {norm(e)}")
+            ns = o.fields.get('__dict__', o.fields)
+            if name == 'hasattr':
+                return a in ns
+            if a not in ns:
+                raise Raised('AttributeError')
+            return ns[a]
+        if name in self.funcs and isinstance(self.funcs[name], ast.FunctionDef):
+            return self.invoke(self.funcs[name], [self.ev(a) for a in e.args])
         if name in self.funcs:
             return self.funcs[name](*[self.ev(a) for a in e.args])
         if isinstance(e.func, ast.Attribute):
@@ -148,13 +165,36 @@ class Abs(Evaluator):
                 return '<str>'
         raise AnalysisError(f"call outside the abstract domain: {norm(e)}")
 
+    def invoke(self, fn, args):
+        """call of a nested def of the analysed fragment: parameters are local, everything else is the closure"""
+        a = fn.args
+        if a.vararg or a.kwarg or a.kwonlyargs or len(a.args) != len(args):
+            raise AnalysisError(f"call of {fn.name} outside the abstract domain")
+        saved = self.env
+        self.env = dict(saved)
+        for p2, v in zip(a.args, args):
+            self.env[p2.arg] = v
+        try:
+            self._block([x for x in fn.body if not (isinstance(x, ast.Expr) and isinstance(x.value, ast.Constant))])
+            ret = None
+        except Returned as x:
+            ret = x.value
+        finally:
+            self.env = saved
+        return ret
+
+    def ev_Dict(self, e):
+        if any(k is None for k in e.keys):
+            raise AnalysisError("dict unpacking outside the abstract domain")
+        return {self.ev(k): self.ev(v) for k, v in zip(e.keys, e.values)}
+
     def ev_Subscript(self, e):
         key = norm(e)
         if key in self.env:
             return self.env[key]
         base = self.ev(e.value)
         idx = self.ev(e.slice)
-        if isinstance(base, (dict, list, tuple)):
+        if isinstance(base, (dict, list, tuple, str)):
             try:
                 return base[idx]
             except (KeyError, IndexError) as ex:
@@ -281,6 +321,26 @@ class Abs(Evaluator):
                     raise AnalysisError(f"call statement outside the abstract domain: {norm(st)[:80]}")
             elif isinstance(st, ast.Raise):
                 self.on_raise(st)
+            elif isinstance(st, ast.FunctionDef):
+                self.funcs[st.name] = st
+            elif isinstance(st, ast.Expr) and isinstance(st.value, ast.Call) and isinstance(st.value.func, ast.Name) \
+                    and isinstance(self.funcs.get(st.value.func.id), ast.FunctionDef):
+                self.ev(st.value)
+            elif isinstance(st, ast.Try) and not st.finalbody:
+                try:
+                    self._block(st.body)
+                except Raised as x:
+                    for h in st.handlers:
+                        names = [] if h.type is None else [norm(t) for t in (h.type.elts if isinstance(h.type, ast.Tuple) else [h.type])]
+                        if h.type is None or x.what in names or 'Exception' in names:
+                            if h.name:
+                                self.env[h.name] = x.what
+                            self._block(h.body)
+                            break
+                    else:
+                        raise
+                else:
+                    self._block(st.orelse)
             else:
                 super()._block([st])
 
@@ -2031,6 +2091,357 @@ def rule_op_record(repo):
     return r
 
 
+# ---------------------------------------------------------------------------
+# R-C09-netwriters: _resolve_value_connections evaluated on small nets
+def rule_netwriters(repo):
+    r = RuleResult('R-C09-netwriters', "_resolve_value_connections, evaluated on small nets with the drivers at every position: "
+                                       "two drivers of any kind (top-level InPort, Placeholder OutPort, signal written by an "
+                                       "update block, constant) give MultiWriterError, one driver heads the net, none leaves "
+                                       "it headless")
+    m, f = _func_of(repo, L3, 'ComponentLevel3._resolve_value_connections')
+    fq = 'ComponentLevel3._resolve_value_connections'
+    import itertools
+    me = _self_name(f)
+    anc = class_ancestors(repo, L3, ['InPort', 'OutPort', 'Wire', 'Const', 'Signal'])
+    anc.update(class_ancestors(repo, COMP, ['Component']))
+    anc['PlaceholderComp'] = set(anc['Component']) | {'Component', 'Placeholder'}
+    body = [x for x in f.body if not _is_doc(x)]
+    kinds = ['top-level InPort', 'Placeholder OutPort', 'signal written by an update block', 'constant']
+
+    def world(members):
+        T = Obj('Component', **{'is_signal()': False})
+        T.fields['get_parent_object()'] = None
+        A = Obj('Component', **{'is_signal()': False, 'get_parent_object()': T})
+        P = Obj('PlaceholderComp', **{'is_signal()': False, 'get_parent_object()': T})
+
+        def sig(cls, host):
+            return Obj(cls, **{'get_host_component()': host, 'get_parent_object()': host, 'get_sibling_slices()': [],
+                               'is_signal()': True})
+        objs, written = [], []
+        for k in members:
+            if k == 'top-level InPort':
+                o = sig('InPort', T)
+            elif k == 'Placeholder OutPort':
+                o = sig('OutPort', P)
+            elif k == 'signal written by an update block':
+                o = sig('Wire', T)
+                written.append(o)
+            elif k == 'constant':
+                o = Obj('Const', **{'get_host_component()': T, 'get_parent_object()': T, 'is_signal()': False})
+            elif k == 'reader port':
+                o = sig('InPort', A)
+            else:
+                o = sig('Wire', T)
+            objs.append(o)
+        return T, objs, written
+
+    def run(members):
+        T, objs, written = world(members)
+        T.fields['_floodfill_nets()'] = [list(objs)]
+        T.fields['_dsl'] = Obj('dsl', all_signals=list(objs), all_adjacency={},
+                               all_upblk_writes={Obj('blk'): list(written)} if written else {})
+        ev = Abs({me: T}, ancestors=anc, arith=True, closed=True)
+        out = run_block(ev, body)
+        r.evaluations += 1
+        if out[0] == 'raise':
+            return ('raise', out[1]), objs
+        if out[0] != 'return' or not isinstance(out[1], list):
+            raise AnalysisError(f"{fq}: unexpected outcome {out[0]} of the abstract evaluation")
+        return ('nets', [(w, list(n)) for w, n in out[1]]), objs
+
+    # two drivers, every pair of kinds, every position
+    for k1, k2 in itertools.combinations_with_replacement(kinds, 2):
+        wrong = None
+        for perm in sorted(set(itertools.permutations([k1, k2, 'reader port', 'reader wire']))):
+            (kind, val), objs = run(list(perm))
+            if not (kind == 'raise' and val == 'MultiWriterError'):
+                wrong = wrong or (perm, kind, val)
+        cons = f"two drivers: {k1} + {k2}"
+        if wrong:
+            perm, kind, val = wrong
+            r.bad(m, fq, cons, f"a net with members {list(perm)} (in this order) is "
+                  f"{'accepted' if kind == 'nets' else 'answered with ' + str(val)} instead of MultiWriterError: the second driver "
+                  f"is never looked at", f.lineno)
+        else:
+            r.ok(m, fq, cons)
+    # one driver heads the net
+    for k1 in kinds:
+        wrong = None
+        for perm in sorted(set(itertools.permutations([k1, 'reader port', 'reader wire']))):
+            (kind, val), objs = run(list(perm))
+            w = objs[list(perm).index(k1)]
+            if not (kind == 'nets' and len(val) == 1 and val[0][0] is w and len(val[0][1]) == 3):
+                wrong = wrong or (perm, kind, val)
+        cons = f"one driver: {k1}"
+        if wrong:
+            perm, kind, val = wrong
+            r.bad(m, fq, cons, f"a net with members {list(perm)} does not come back headed by its only driver "
+                  f"({'raises ' + str(val) if kind == 'raise' else 'writer ' + ('None' if val and val[0][0] is None else 'wrong')}): "
+                  f"a legal design is rejected (NoWriterError / MultiWriterError)", f.lineno)
+        else:
+            r.ok(m, fq, cons)
+    (kind, val), objs = run(['reader port', 'reader wire'])
+    cons = 'no driver: the net is returned with writer None'
+    if kind == 'nets' and len(val) == 1 and val[0][0] is None:
+        r.ok(m, fq, cons)
+    else:
+        r.bad(m, fq, cons, f"a net without any driver yields {kind} {val if kind == 'raise' else ''}: NoWriterError is not raised",
+              f.lineno)
+    if not r.findings:
+        r.require_floor(15)
+    return r
+
+
+# ---------------------------------------------------------------------------
+# R-C09-byname: connect_by_name evaluated on an interface pair
+def rule_byname_fields(repo):
+    r = RuleResult('R-C09-byname', "connect_by_name, evaluated on interface pairs: every public Connectable field (lists "
+                                   "element-wise) is connected to its namesake exactly once whatever other attributes "
+                                   "precede it; a Connectable field missing on the other side raises InvalidConnectionError")
+    m, f = _func_of(repo, L3, 'ComponentLevel3._connect_interfaces.connect_by_name')
+    fq = 'ComponentLevel3._connect_interfaces.connect_by_name'
+    outer = enclosing(f, (ast.FunctionDef,))
+    comp = _self_name(outer)
+    if len(f.args.args) != 2:
+        raise AnalysisError(f"{fq}: signature changed")
+    p_this, p_other = [a.arg for a in f.args.args]
+    anc = class_ancestors(repo, L3, ['InPort', 'OutPort', 'Wire', 'Signal', 'Interface'])
+    body = [x for x in f.body if not _is_doc(x)]
+
+    def mkifc(fields):
+        return Obj('Interface', __dict__=dict(fields))
+    cases = []
+    for extra_name in ('Width', 'aaa_param', 'zzz_param', None):
+        for extra_on_other in ((False, True) if extra_name else (False,)):
+            a = {'msg': Obj('OutPort'), 'rdy': Obj('InPort'), 'val': [Obj('OutPort'), Obj('OutPort')],
+                 'grid': [[Obj('Wire')], [Obj('Wire')]], '_dsl': Obj('dsl'), '_private': Obj('Wire')}
+            b = {'msg': Obj('InPort'), 'rdy': Obj('OutPort'), 'val': [Obj('InPort'), Obj('InPort')],
+                 'grid': [[Obj('Wire')], [Obj('Wire')]], '_dsl': Obj('dsl')}
+            if extra_name:
+                a[extra_name] = 8
+                if extra_on_other:
+                    b[extra_name] = 8
+            want = [(a['msg'], b['msg']), (a['rdy'], b['rdy']), (a['val'][0], b['val'][0]), (a['val'][1], b['val'][1]),
+                    (a['grid'][0][0], b['grid'][0][0]), (a['grid'][1][0], b['grid'][1][0])]
+            if extra_name and extra_on_other:
+                want.append((8, 8))
+            cases.append((f"plain attribute {extra_name!r}{' on both sides' if extra_on_other else ''}" if extra_name
+                          else 'ports only', a, b, want, None))
+    a = {'msg': Obj('OutPort'), 'rdy': Obj('InPort')}
+    cases.append(('a port missing on the other side', a, {'msg': Obj('InPort')}, None, 'InvalidConnectionError'))
+    for label, a, b, want, err in cases:
+        ev = Abs({p_this: mkifc(a), p_other: mkifc(b), comp: Obj('Component')}, ancestors=anc, arith=True,
+                 tolerant_calls=('_connect',))
+        out = run_block(ev, body)
+        r.evaluations += 1
+        cons = f"by-name connection, {label}"
+        if err:
+            if out == ('raise', err):
+                r.ok(m, fq, cons)
+            else:
+                r.bad(m, fq, cons, f"outcome {out} instead of {err}", f.lineno)
+            continue
+        if out[0] != 'fall':
+            r.bad(m, fq, cons, f"a legal by-name connection ends with {out}", f.lineno)
+            continue
+        got = [tuple(args[:2]) for recv, meth, args in ev.effects if meth == '_connect' and len(args) >= 2]
+
+        def same(p, q):
+            return (p[0] is q[0] and p[1] is q[1]) or (p[0] is q[1] and p[1] is q[0]) or \
+                (not isinstance(p[0], Obj) and p == q)
+        missing = [w for w in want if sum(1 for g in got if same(g, w)) != 1]
+        extra = [g for g in got if not any(same(g, w) for w in want)]
+        if missing or extra:
+            names = [k for k, v in a.items() for w in missing
+                     if any(w[0] is x for x in ([v] if not isinstance(v, list) else [z for y in v for z in (y if isinstance(y, list) else [y])]))]
+            r.bad(m, fq, cons, f"{len(missing)} of {len(want)} corresponding fields are not connected exactly once "
+                  f"(fields {sorted(set(names))}) and {len(extra)} spurious connections are made: the ports stay undriven / "
+                  f"unchecked", f.lineno)
+        else:
+            r.ok(m, fq, cons)
+    if not r.findings:
+        r.require_floor(8)
+    return r
+
+
+# ---------------------------------------------------------------------------
+# R-C09-lambda-name: the generated block name of `x //= lambda` is injective on target names
+class _StrEval:
+    """constant folding of a string-building expression (format / replace / re.sub / f-string / + / %) with the target's
+    name substituted for repr(<target>) / <target>._dsl.full_name"""
+    def __init__(self, target_param, value):
+        self.t, self.v = target_param, value
+
+    def ev(self, e):
+        import re as _re
+        if isinstance(e, ast.Constant) and isinstance(e.value, (str, int)):
+            return e.value
+        if isinstance(e, ast.Call) and isinstance(e.func, ast.Name) and e.func.id in ('repr', 'str') and len(e.args) == 1 \
+                and isinstance(e.args[0], ast.Name) and e.args[0].id == self.t:
+            return self.v
+        if isinstance(e, ast.Attribute) and norm(e) in (f"{self.t}._dsl.full_name",):
+            return self.v
+        if isinstance(e, ast.Call) and isinstance(e.func, ast.Attribute):
+            meth = e.func.attr
+            if norm(e.func.value) == 're' and meth == 'sub' and len(e.args) == 3 and not e.keywords:
+                pat, rp, st = [self.ev(a) for a in e.args]
+                return _re.sub(pat, rp, st)
+            base = self.ev(e.func.value)
+            args = [self.ev(a) for a in e.args]
+            if isinstance(base, str) and meth in ('replace', 'format', 'strip', 'lstrip', 'rstrip', 'lower', 'upper', 'join',
+                                                  'translate') and not e.keywords and meth != 'translate':
+                return getattr(base, meth)(*args)
+        if isinstance(e, ast.JoinedStr):
+            out = ''
+            for v in e.values:
+                if isinstance(v, ast.FormattedValue):
+                    x = self.ev(v.value)
+                    out += repr(x) if v.conversion == 114 and not isinstance(v.value, ast.Name) else str(x)
+                else:
+                    out += str(self.ev(v))
+            return out
+        if isinstance(e, ast.BinOp) and isinstance(e.op, ast.Add):
+            return self.ev(e.left) + self.ev(e.right)
+        if isinstance(e, ast.BinOp) and isinstance(e.op, ast.Mod):
+            return self.ev(e.left) % self.ev(e.right)
+        if isinstance(e, ast.Tuple):
+            return tuple(self.ev(x) for x in e.elts)
+        if isinstance(e, (ast.ListComp, ast.GeneratorExp)) and len(e.generators) == 1 and not e.generators[0].ifs \
+                and isinstance(e.generators[0].target, ast.Name):
+            g = e.generators[0]
+            it = self.ev(g.iter)
+            out = []
+            for ch in it:
+                sub = _StrEval(self.t, self.v)
+                sub.extra = dict(getattr(self, 'extra', {}), **{g.target.id: ch})
+                out.append(sub.ev(e.elt))
+            return out
+        if isinstance(e, ast.Name) and e.id in getattr(self, 'extra', {}):
+            return self.extra[e.id]
+        if isinstance(e, ast.IfExp):
+            return self.ev(e.body) if self.ev(e.test) else self.ev(e.orelse)
+        if isinstance(e, ast.Compare) and len(e.ops) == 1:
+            a2, b2 = self.ev(e.left), self.ev(e.comparators[0])
+            ops = {ast.Eq: a2 == b2, ast.NotEq: a2 != b2}
+            if isinstance(e.ops[0], (ast.In, ast.NotIn)):
+                return (a2 in b2) == isinstance(e.ops[0], ast.In)
+            if type(e.ops[0]) in ops:
+                return ops[type(e.ops[0])]
+        if isinstance(e, ast.Call) and isinstance(e.func, ast.Attribute) and e.func.attr in ('isalnum', 'isidentifier', 'isdigit', 'isalpha') \
+                and not e.args:
+            return getattr(self.ev(e.func.value), e.func.attr)()
+        if isinstance(e, ast.Call) and isinstance(e.func, ast.Name) and e.func.id in ('ord', 'hex', 'len', 'str', 'id') \
+                and len(e.args) == 1 and e.func.id != 'id':
+            return {'ord': ord, 'hex': hex, 'len': len, 'str': str}[e.func.id](self.ev(e.args[0]))
+        raise AnalysisError(f"block-name expression outside the string domain: {norm(e)[:80]}")
+
+
+LAMBDA_NAME_PAIRS = [('s.x[0]', 's.x_0'), ('s.x[0].in_', 's.x_0.in_'), ('s.w[1][0:4]', 's.w_1[0:4]'), ('s.a.b', 's.a_b'),
+                     ('s.x[10]', 's.x[1][0]'), ('s.x[1:3]', 's.x[13]')]
+
+
+class _NameAbs(Abs):
+    """Abs + real string building (format / replace / re.sub / f-strings over the values bound so far)"""
+    def __init__(self, env, tparam, tname, **kw):
+        super().__init__(env, **kw)
+        self.tparam, self.tname = tparam, tname
+
+    def ev(self, e):
+        stringy = isinstance(e, ast.JoinedStr) or \
+            (isinstance(e, ast.BinOp) and isinstance(e.op, (ast.Add, ast.Mod))) or \
+            (isinstance(e, ast.Call) and ((isinstance(e.func, ast.Name) and e.func.id in ('repr', 'str')) or
+                                          (isinstance(e.func, ast.Attribute) and
+                                           (e.func.attr in ('format', 'replace', 'join', 'strip', 'lstrip', 'rstrip', 'lower', 'upper')
+                                            or norm(e.func) == 're.sub'))))
+        if stringy:
+            se = _StrEval(self.tparam, self.tname)
+            se.extra = {k: v for k, v in self.env.items() if isinstance(v, (str, int)) and not isinstance(v, bool)}
+            try:
+                return se.ev(e)
+            except AnalysisError:
+                pass
+        return super().ev(e)
+
+
+def rule_lambda_names(repo):
+    r = RuleResult('R-C09-lambda-name', "the update blocks generated for `target //= lambda` of two different targets of one "
+                                        "component (and for a target whose name is already taken by a user block) get "
+                                        "different names: the naming fragment is evaluated with the names registered so far")
+    m, f = _func_of(repo, L3, 'ComponentLevel3._create_assign_lambda')
+    fq = 'ComponentLevel3._create_assign_lambda'
+    if len(f.args.args) < 3:
+        raise AnalysisError(f"{fq}: signature changed")
+    me, tparam = f.args.args[0].arg, f.args.args[1].arg
+    # the name variable: FunctionDef(name=<var>) of the generated block; the fragment = the top-level statements from its
+    # first assignment up to the construction of that FunctionDef
+    fdefs = [(c, k.value) for c in walk_no_nested(f) if isinstance(c, ast.Call) and norm(c.func) in ('ast.FunctionDef', 'FunctionDef')
+             for k in c.keywords if k.arg == 'name' and isinstance(k.value, ast.Name)]
+    fdefs = [(c, v) for c, v in fdefs if _assignments_to(f, v.id)]
+    if not fdefs:
+        raise AnalysisError(f"{fq}: the generated block's name variable was not found")
+    fcall, nv = fdefs[0]
+    nv = nv.id
+
+    def top(n):
+        while parent(n) is not f:
+            n = parent(n)
+        return n
+    end = f.body.index(top(fcall))
+    firsts = [i for i, st in enumerate(f.body[:end]) if any(isinstance(x, ast.Name) and x.id == nv and isinstance(x.ctx, ast.Store)
+                                                             for x in ast.walk(st))]
+    if not firsts:
+        raise AnalysisError(f"{fq}: the block name is not assigned before the block is built")
+    frag = f.body[firsts[0]:end]
+    # the generated block is registered under its name before the next `//=` runs
+    regs = [c for c in walk_no_nested(f) if isinstance(c, ast.Call) and isinstance(c.func, ast.Attribute) and c.func.attr == '_update']
+    cons = 'the generated block is registered (ComponentLevel1._update) in the same call'
+    (r.ok(m, fq, cons) if regs and all(_unconditional(c, f) for c in regs) else
+     r.bad(m, fq, cons, "the generated block is not registered with _update: later lambdas cannot see its name", f.lineno))
+
+    def gen(target, registered):
+        host = Obj('Component', _dsl=Obj('dsl', name_upblk=registered, name_func={}, upblks=list(registered.values())))
+        ev = _NameAbs({me: host, tparam: Obj('Wire')}, tparam, target, arith=True,
+                      funcs={'itertools.count': lambda a=0: range(a, a + 40), 'count': lambda a=0: range(a, a + 40)})
+        try:
+            out = run_block(ev, frag)
+        except AnalysisError as e:
+            if 'does not terminate' in str(e):
+                return None
+            raise
+        r.evaluations += 1
+        if out[0] != 'fall':
+            raise AnalysisError(f"{fq}: naming fragment ends with {out}")
+        name = ev.env.get(nv)
+        if not isinstance(name, str):
+            raise AnalysisError(f"{fq}: the block name does not fold to a string ({name!r})")
+        return name
+    scen = [((a2, b2), {}) for a2, b2 in LAMBDA_NAME_PAIRS]
+    scen += [(('s.a.b', 's.a_b'), {'_lambda__s_a_b': Obj('blk')}), (('s.x', 's.x'), {})]
+    for (a2, b2), pre in scen:
+        reg = dict(pre)
+        names = []
+        for t in (a2, b2):
+            n = gen(t, reg)
+            names.append(n)
+            if n is None:
+                break
+            reg[n] = Obj('blk')
+        label = f"{a2} and {b2}" + (f" next to a user block named {sorted(pre)[0]}" if pre else '')
+        cons = f"block names for {label} differ" if a2 != b2 else f"a second lambda on {a2} gets a fresh block name"
+        if None in names:
+            r.bad(m, fq, cons, "the naming loop does not terminate once the first candidate is taken: elaboration hangs", f.lineno)
+        elif len(set(names) | set(pre)) != len(names) + len(pre):
+            r.bad(m, fq, cons, f"the generated block names are {names}{' with ' + str(sorted(pre)) + ' already defined' if pre else ''}: "
+                  f"a name is reused, so a legal design is rejected with UpblkFuncSameNameError", f.lineno)
+        elif not all(n.isidentifier() for n in names):
+            r.bad(m, fq, cons, f"generated block name {names} is not an identifier", f.lineno)
+        else:
+            r.ok(m, fq, cons)
+    if not r.findings:
+        r.require_floor(len(LAMBDA_NAME_PAIRS) + 3)
+    return r
+
+
 from rules.c02 import rule_funcfold   # noqa: E402  (a writer hidden in a nested helper must be attributed to the block: shared with C02)
 from rules.c02 import rule_cache_scope   # noqa: E402  (read/write sets judged by the checks must not be stale cache entries of another lambda body)
 from rules.c02 import rule_visitor   # noqa: E402  (every statement position that can hold a store -- for/while else, with, try -- is visited, so no driver is invisible to the checks)
@@ -2038,11 +2449,13 @@ from rules.c02 import rule_index_scope   # noqa: E402  (a loop variable used as 
 from rules.c02 import rule_cache_readonly   # noqa: E402  (the written-object sets the multi-writer check judges are resolved per instance, not from a class-cache entry patched by an earlier instance)
 from rules.c08 import rule_byname   # noqa: E402  (a by-name interface connection that silently skips nested port lists hides a second driver from the checks)
 from rules.c08 import rule_collectors   # noqa: E402  (slice signals must reach all_signals also after replace_component, or slice-only nets are never checked)
+from rules.c08 import rule_nodes   # noqa: E402  (two different bit ranges registered as one slice object hide a second driver of those bits, or invent one)
 from rules.c08 import rule_ancestors   # noqa: E402  (every signal ancestor of a written object is seeded as a writer: second drivers on a struct are seen)
 
 RULES = [rule_overlap, rule_slicekey, rule_pipeline, rule_mw_guard, rule_mw_cover, rule_porttable, rule_optable,
          rule_nowriter, rule_loop, rule_raise_resolves, rule_const_host, rule_funcfold, rule_cache_scope, rule_ancestors,
-         rule_op_record, rule_visitor, rule_cache_readonly, rule_byname, rule_collectors, rule_index_scope]
+         rule_op_record, rule_visitor, rule_cache_readonly, rule_byname, rule_collectors, rule_index_scope,
+         rule_netwriters, rule_byname_fields, rule_lambda_names, rule_nodes]
 
 
 # ---------------------------------------------------------------------------
@@ -2126,6 +2539,20 @@ MUTANTS = [
     _m('headless-not-requeued', L3, "          new_headless.append( net )\n", "", 'R-C09-nowriter'),
     _m('nowriter-not-raised', L3, "    if headless:\n      raise NoWriterError( headless )", "    if headless:\n      pass", 'R-C09-nowriter'),
     # --- R-C09-loop
+    _m('seed-loop-stops-at-first-external-driver', L3, "          writer_prop[ member ] = True\n\n    headless = nets", "          writer_prop[ member ] = True\n          break\n\n    headless = nets", 'R-C09-netwriters'),
+    _m('child-inport-seeded-as-writer', L3, "isinstance( member, InPort ) and host == s )", "isinstance( member, InPort ) and host != s )", 'R-C09-netwriters'),
+    _m('const-not-a-net-writer', L3, "            if v in writer_prop or isinstance( v, Const ):", "            if v in writer_prop:", 'R-C09-netwriters'),
+    _m('placeholder-outport-not-seeded', L3, "( isinstance( member, OutPort ) and isinstance( host, Placeholder ) ):", "( isinstance( member, OutPort ) and isinstance( host, Placeholder ) and host == s ):", 'R-C09-netwriters'),
+    _m('headed-net-loses-readers', L3, "        headed.append( (writer, net) )", "        headed.append( (writer, { writer }) )", 'R-C09-netwriters'),
+    _m('byname-break-on-plain-attribute', L3, "                repr(this), type(this), repr(other), type(other) ) )\n", "                repr(this), type(this), repr(other), type(other) ) )\n            break\n", 'R-C09-byname'),
+    _m('byname-private-filter-inverted', L3, "        if name[0] != '_': # filter private variables\n          obj = this.__dict__[ name ]", "        if name[0] == '_': # filter private variables\n          obj = this.__dict__[ name ]", 'R-C09-byname'),
+    _m('byname-list-element-zero', L3, "            recursive_connect( this_obj[i], other_obj[i] )", "            recursive_connect( this_obj[i], other_obj[0] )", 'R-C09-byname'),
+    _m('byname-missing-port-silent', L3, "            if isinstance( obj, Connectable ):\n              raise InvalidConnectionError(\"There is no", "            if isinstance( obj, list ):\n              raise InvalidConnectionError(\"There is no", 'R-C09-byname'),
+    _m('lambda-name-not-uniquified (375ca6d)', L3, "    base_name, nth = blk_name, 1\n    while blk_name in s._dsl.name_upblk:\n      nth += 1\n      blk_name = f\"{base_name}__{nth}\"\n", "", 'R-C09-lambda-name'),
+    _m('lambda-name-uniquified-against-functions-only', L3, "    while blk_name in s._dsl.name_upblk:", "    while blk_name in s._dsl.name_func:", 'R-C09-lambda-name'),
+    _m('lambda-name-counter-stuck', L3, "      nth += 1\n      blk_name = f\"{base_name}__{nth}\"", "      blk_name = f\"{base_name}__{nth}\"", 'R-C09-lambda-name'),
+    _m('lambda-name-uniquify-once', L3, "    while blk_name in s._dsl.name_upblk:\n      nth += 1", "    if blk_name in s._dsl.name_upblk:\n      nth += 1", 'R-C09-lambda-name'),
+    _m('lambda-name-suffix-ambiguous', L3, "      blk_name = f\"{base_name}__{nth}\"", "      blk_name = f\"{base_name}_\"", 'R-C09-lambda-name'),
     _m('loop-back-edge-to-root-ignored', L3, "            elif v is not pred[u]:", "            elif v in pred and v is not pred[u]:", 'R-C09-loop'),
     _m('floodfill-neighbour-not-queued', L3, "              pred[v] = u\n              Q.append( v )", "              pred[v] = u", 'R-C09-loop'),
     _m('floodfill-two-signal-nets-dropped', L3, "        if len(net) == 1:\n          continue", "        if len(net) <= 2:\n          continue", 'R-C09-loop'),
@@ -2179,6 +2606,24 @@ EQUIV = [
        "    headless = []\n    for writer, signals in nets:\n      if writer is None:\n        headless.append( signals )\n"),
     _m('nowriter-return-loop-form', L3, "    return headed + [ (None, x) for x in headless ]", "    for x in headless:\n      headed.append( (None, x) )\n    return headed"),
     _m('nowriter-requeue-flipped', L3, "        if not has_writer:\n          new_headless.append( net )\n          continue\n", "        if has_writer:\n          pass\n        else:\n          new_headless.append( net )\n          continue\n"),
+    _m('seed-loop-two-ifs', L3, "        if ( isinstance( member, InPort ) and host == s ) or \\\n           ( isinstance( member, OutPort ) and isinstance( host, Placeholder ) ):\n          writer_prop[ member ] = True",
+       "        if isinstance( member, InPort ) and host == s:\n          writer_prop[ member ] = True\n        elif isinstance( member, OutPort ) and isinstance( host, Placeholder ):\n          writer_prop[ member ] = True"),
+    _m('seed-loop-guard-clause', L3, "        if ( isinstance( member, InPort ) and host == s ) or \\\n           ( isinstance( member, OutPort ) and isinstance( host, Placeholder ) ):\n          writer_prop[ member ] = True",
+       "        if not (( isinstance( member, InPort ) and host == s ) or \\\n           ( isinstance( member, OutPort ) and isinstance( host, Placeholder ) )):\n          continue\n        writer_prop[ member ] = True"),
+    _m('byname-guard-clauses-continue', L3, "        if name[0] != '_': # filter private variables\n          obj = this.__dict__[ name ]\n          if hasattr( other, name ):\n            # other has the corresponding field, connect recursively\n            recursive_connect( obj, getattr( other, name ) )\n\n          else:\n            # other doesn't have the corresponding field, raise error\n            # if obj is connectable.\n            if isinstance( obj, Connectable ):",
+       "        if name[0] == '_': continue\n        if True:\n          obj = this.__dict__[ name ]\n          if hasattr( other, name ):\n            recursive_connect( obj, getattr( other, name ) )\n            continue\n          if True:\n            if isinstance( obj, Connectable ):"),
+    dict(name='lambda-name-regex-one-for-one', edits=[
+        dict(file=L3, old="import linecache\n", new="import linecache\nimport re\n", count=1),
+        dict(file=L3, old="repr(o).replace(\".\",\"_\").replace(\"[\", \"_\").replace(\"]\", \"_\").replace(\":\", \"_\") )", new="re.sub( r'[.\\[\\]:]', '_', repr(o) ) )", count=1)]),
+    dict(name='lambda-name-punctuation-runs-collapsed-but-numbered', edits=[
+        dict(file=L3, old="import linecache\n", new="import linecache\nimport re\n", count=1),
+        dict(file=L3, old="repr(o).replace(\".\",\"_\").replace(\"[\", \"_\").replace(\"]\", \"_\").replace(\":\", \"_\") )", new="re.sub( r'\\W+', '_', repr(o) ) )", count=1)]),
+    dict(name='lambda-name-itertools-count', edits=[
+        dict(file=L3, old="import linecache\n", new="import linecache\nimport itertools\n", count=1),
+        dict(file=L3, old="    base_name, nth = blk_name, 1\n    while blk_name in s._dsl.name_upblk:\n      nth += 1\n      blk_name = f\"{base_name}__{nth}\"\n",
+             new="    base_name = blk_name\n    if blk_name in s._dsl.name_upblk:\n      for nth in itertools.count(2):\n        blk_name = f\"{base_name}__{nth}\"\n        if blk_name not in s._dsl.name_upblk:\n          break\n", count=1)]),
+    _m('lambda-name-membership-keys', L3, "    while blk_name in s._dsl.name_upblk:", "    while blk_name in s._dsl.name_upblk.keys():"),
+    _m('lambda-name-fstring', L3, "blk_name = \"_lambda__{}\".format( repr(o)", "blk_name = \"_lambda__\" + \"{}\".format( repr(o)"),
     _m('loop-test-ne-for-identity', L3, "            elif v is not pred[u]:", "            elif v != pred[u]:"),
     _m('floodfill-breadth-first', L3, "          u = Q.pop()\n          visited.add( u )", "          u = Q.pop(0)\n          visited.add( u )"),
     _m('floodfill-root-pred-none', L3, "        Q   = [ obj ]\n", "        Q   = [ obj ]\n        pred[obj] = None\n"),
